@@ -41,6 +41,7 @@ LEVEL = "exploration"
 TECHNIQUE = ("deterministic simulation: seeded chain shape / firing order / pause pattern on real Deferred chains, callback pipelines, inlineCallbacks "
              "and coroutines, with a frame-walking stack probe compared against the same shape at length 12")
 QUICK_RUNS = 1600
+TWIN_P = 0.08   # this share of the runs drives two independent instances of the scenario one after the other (detsim.runner._run_scenario)
 BATCH = 12
 RUN_WALL_LIMIT_S = 120
 COMPONENTS = {"real": ["twisted.internet.defer.Deferred._runCallbacks", "twisted.internet.defer._inlineCallbacks / inlineCallbacks",
